@@ -862,7 +862,7 @@ impl Prop for C10 {
         run(c, o)
     }
     fn rule() -> &'static str {
-        "configuration = ordered subset of a 10-service pool (S, s, Sv, a.S, a.Sv, a.s, A.S, a.S.Tt, a.b.S, ab.S; methods M, m, Mm, M2 with recording echo handlers) x wrapper per service (bare, InterceptedService, Layered, two nestings) x build path (Routes::new/add_service, Routes::default, RoutesBuilder, optional prepare) x request-target form (origin / absolute); each case sends 1-8 paths (exact, one/two-edit mutants over a 32-char alphabet incl. '?', '%', '{', non-ASCII case-folding chars, case flips, 44 segment shapes, percent-encoded spellings, vocabulary joins, random URI paths, optional ?query) in-process through Routes as a tower Service, to the router built in the given order and to one built in a permuted order. Oracle: dispatch to (S,M) iff the text before the first '?' equals \"/\"+full name+\"/\"+method of a registered service (own table), then exactly that handler ran once with the sent message and the reply is grpc-status 0 + echo; otherwise no handler ran, HTTP 200, content-type application/grpc, grpc-status 12; both orders must agree. Non-trivial: some path is a one-edit / case / prefix / extension mutant of a registered exact path, or the registered set contains names that are prefixes of one another. Distinct = distinct serialised case. Also: services wrapped in interceptors that record every path they see: a path that names no registered service reaches no wrapper, a dispatched path only the wrapper of its own service."
+        "configuration = ordered subset of a 10-service pool (S, s, Sv, a.S, a.Sv, a.s, A.S, a.S.Tt, a.b.S, ab.S; methods M, m, Mm, M2 with recording echo handlers) x wrapper per service (bare, InterceptedService, Layered, two nestings) x build path (Routes::new/add_service, Routes::default, RoutesBuilder, optional prepare) x request-target form (origin / absolute); each case sends 1-8 paths (exact, one/two-edit mutants over a 32-char alphabet incl. '?', '%', '{', non-ASCII case-folding chars, case flips, 44 segment shapes, percent-encoded spellings, vocabulary joins, random URI paths, optional ?query) in-process through Routes as a tower Service, to the router built in the given order and to one built in a permuted order. Oracle: dispatch to (S,M) iff the text before the first '?' equals \"/\"+full name+\"/\"+method of a registered service (own table), then exactly that handler ran once with the sent message and the reply is grpc-status 0 + echo; otherwise no handler ran, HTTP 200, content-type application/grpc, grpc-status 12; both orders must agree. Non-trivial: some path is a one-edit / case / prefix / extension mutant of a registered exact path, or the registered set contains names that are prefixes of one another. Distinct = distinct serialised case. Also: services wrapped in interceptors that record every path they see: a path that names no registered service reaches no wrapper, a dispatched path only the wrapper of its own service. Request content-type is application/grpc, +proto or +json."
     }
     fn assumptions() -> Vec<String> {
         vec![
